@@ -111,7 +111,9 @@ func TestC16_Monitor(t *testing.T) {
 			switch closeAt {
 			case "before-ready":
 				w.h("close monitor before its publisher is ready")
-				m.mon.Close()
+				if !closeMonitorBounded(m.mon, m.cb) {
+					w.fail("WEDGE: Monitor.Close() did not return (before the publisher was ready)")
+				}
 				w.markClosed(m)
 				observeDone("Close before the publisher was ready")
 				closed = true
@@ -179,7 +181,16 @@ func TestC16_Monitor(t *testing.T) {
 		sinceBlock := 0
 		doClose := func(what string) {
 			w.h("close monitor (%s)", what)
-			m.mon.Close()
+			closeReturned := make(chan struct{})
+			go func() { m.mon.Close(); close(closeReturned) }()
+			defer func() {
+				select {
+				case <-closeReturned:
+				case <-time.After(wedgeBoundNow()):
+					setWedgeSeen()
+					w.fail("WEDGE: Monitor.Close() (%s) did not return although its handler is not blocked any more and Done() is closed", what)
+				}
+			}()
 			w.markClosed(m)
 			if m.cb.blocked() {
 				// Done must not close while a callback is still running inside the blocked handler
